@@ -122,6 +122,64 @@ func runC19(e *Env) {
 				return
 			}
 			isLinux := parts[0] == "linux" || parts[0] == "android" // android satisfies the linux build constraint (same kernel interface)
+			// byte order chosen at compile time: where the assignment of the package's byte-order variable sits behind
+			// conditions the type checker folds to constants for this target (a per-GOARCH `IsBigEndian` constant from
+			// build-constrained files), the order chosen must be the target's (seed C19h: `arm` missing from a copied list of
+			// little-endian architectures). A run-time probe of memory is not a constant and is C02's business.
+			{
+				bigEndian := map[string]bool{"armbe": true, "arm64be": true, "m68k": true, "mips": true, "mips64": true, "mips64p32": true, "ppc": true, "ppc64": true, "s390": true, "s390x": true, "shbe": true, "sparc": true, "sparc64": true}
+				chosen := "" // "little", "big"
+				var walk func(stmts []ast.Stmt)
+				walk = func(stmts []ast.Stmt) {
+					for _, st := range stmts {
+						switch x := st.(type) {
+						case *ast.AssignStmt:
+							if len(x.Lhs) == 1 && len(x.Rhs) == 1 {
+								if id, ok := x.Lhs[0].(*ast.Ident); ok && id.Name == "nativeEndian" {
+									if sel, ok := x.Rhs[0].(*ast.SelectorExpr); ok {
+										switch sel.Sel.Name {
+										case "LittleEndian":
+											chosen = "little"
+										case "BigEndian":
+											chosen = "big"
+										}
+									}
+								}
+							}
+						case *ast.BlockStmt:
+							walk(x.List)
+						case *ast.IfStmt:
+							if x.Init != nil {
+								continue // not a plain constant test
+							}
+							tv, ok := root.TypesInfo.Types[x.Cond]
+							if !ok || tv.Value == nil || tv.Value.Kind() != constant.Bool {
+								continue // decided at run time: not this rule's business
+							}
+							if constant.BoolVal(tv.Value) {
+								walk(x.Body.List)
+							} else if x.Else != nil {
+								walk([]ast.Stmt{x.Else})
+							}
+						}
+					}
+				}
+				for _, f := range root.Syntax {
+					for _, d := range f.Decls {
+						if fd, ok := d.(*ast.FuncDecl); ok && fd.Recv == nil && fd.Body != nil && fd.Name.Name == "init" {
+							walk(fd.Body.List)
+						}
+					}
+				}
+				if chosen != "" {
+					want := "little"
+					if bigEndian[parts[1]] {
+						want = "big"
+					}
+					add(chosen == want, "E4.endian", t+"/compile-time-byte-order", "", "the byte order chosen at compile time is the target's ("+want+"-endian)",
+						fmt.Sprintf("under %s the package initialisation chooses %s-endian argument words at compile time, but %s is %s-endian: argument conditions read the wrong halves of the 64-bit arguments, and the same policy compiles to another program than on the other targets of that byte order", t, chosen, parts[1], want))
+				}
+			}
 			// which loader is selected is read from what LoadFilter does, not from a file name: the stub contains no call
 			realLoader := false
 			nLoader := 0
